@@ -432,7 +432,7 @@ func (w *World) planInitialTasks() {
 		// every contact gets at least one start
 		n := 1 + t.Weighted("nstarts", 6, 2, 1)
 		for k := 0; k < n; k++ {
-			trig := []string{"manual", "msg", "manual_batch", "manual_params"}[t.Weighted("trigger", 5, 4, 1, 1)]
+			trig := []string{"manual", "msg", "manual_batch", "manual_params", "campaign", "channel", "optin", "ticket"}[t.Weighted("trigger", 10, 8, 2, 2, 1, 1, 1, 1)]
 			task := &Task{Kind: tStart, Contact: i, Flow: t.Pick("startflow", len(w.Sc.Flows)), Trigger: trig,
 				At: w.Now.Add(time.Duration(t.Pick("startdelay_m", 60*24*3)) * time.Minute)}
 			if trig == "msg" {
